@@ -95,7 +95,7 @@ GNextHold ==
                               Notify(p) /\ Rec(Ev("Notify", c, 0, p))
             \/ \E c \in {RandomElement(C)} : Coin(2) /\ Replay(c) /\ Rec(Ev("Replay", c, 0, NoP))
             \/ \E k \in Inv : (inv[k].st = "accepted" \/ Coin(10)) /\ Settle(k) /\ Rec(Ev("Settle", 0, k, NoP))
-            \/ \E k \in Inv : ((inv[k].st = "accepted" /\ Coin(3)) \/ Coin(12)) /\ Cancel(k) /\ Rec(Ev("Cancel", 0, k, NoP))
+            \/ \E k \in Inv : ((inv[k].st = "accepted" /\ Coin(2)) \/ Coin(10)) /\ Cancel(k) /\ Rec(Ev("Cancel", 0, k, NoP))
             \/ (timer # {} \/ Coin(6)) /\ Tick /\ Rec(Ev("Tick", 0, 0, NoP))
             \/ Coin(4) /\ Block /\ Rec(Ev("Block", 0, 0, NoP))
 GNext == /\ Len(hist) < MaxLen
